@@ -24,3 +24,9 @@ Definition spec_result (o : op) (seq : list Z) : outcome :=
 
 (* what an iterator may have delivered at any moment: a prefix of seq *)
 Definition is_prefix (l seq : list Z) : Prop := l = firstn (length l) seq.
+
+(* An uncached rule whose generator RAISES after yielding seq (finding F-C11-raise): an operation that
+   consumes all of seq and asks for more gets the ValueError, every time; one that stops earlier does not. *)
+Definition spec_result_raising (o : op) (seq : list Z) : outcome :=
+  let c := consume o seq in
+  if (length c =? length seq)%nat && wants o c then Raise EValueError else result o c.
